@@ -26,7 +26,7 @@ Section FLh.
   Variable p : fcprog.
   Variable cp : cprog.
   Hypothesis Hcod : cpcodata cp = codata_of p.
-  Hypothesis Hdefs : forall f d, ffind_def p f = Some d -> f <> "main" -> callee_ok p cp d.
+  Hypothesis Hdefs : forall f d, ffind_def p f = Some d -> (f <> "main" \/ calls_main_prog p = true) -> callee_ok p cp d.
 
   (* ---------- calls ---------- *)
   Lemma fl_call : forall N f args ret,
@@ -38,7 +38,9 @@ Section FLh.
     rewrite wc_unfold in Hwc. apply wc_call_inv in Hwc. destruct Hwc as [args' [ret0 [Hargs [Eret Es]]]]. subst s.
     simpl in Hf, Hkd, Hws.
     apply andb_prop in Hf. destruct Hf as [Hf Hfa]. apply andb_prop in Hf. destruct Hf as [Hnm Hck].
-    apply negb_true_iff in Hnm. apply String.eqb_neq in Hnm.
+    assert (Hnm' : f <> "main" \/ calls_main_prog p = true).
+    { apply orb_prop in Hnm. destruct Hnm as [Hnm|Hnm]; [left; apply negb_true_iff in Hnm; apply String.eqb_neq in Hnm; exact Hnm | right; exact Hnm]. }
+    clear Hnm. rename Hnm' into Hnm.
     change (tkind p (FCall f args ret)) with (f_is_codata_o p ret) in *.
     assert (HKS : KS p cp n (f_is_codata_o p ret) k cont ce).
     { apply (proj2 HCK). intros x Hx. unfold Sof. apply in_cnames_inv in Hx. destruct Hx as [bb [Hbb E]]. subst x.
